@@ -933,7 +933,7 @@ FAMILIES = [("bvp-s", fam_bvp_atomic_s), ("bvp-aniso", fam_bvp_atomic_aniso), ("
 RULE_TEXT = ("real solve_poisson_bvp / solve_poisson_ivp / interpolate_laplacian / solve_poisson_robust on sums of 1-3 Gaussians (exponents 0.5-4; s, every p and d, "
              "two f harmonic-polynomial types, off-centre and bond-centred s) against closed-form Coulomb potentials at 30 points: atomic grids (displaced "
              "centres, Becke / Becke-trim_inf+Trapezoidal / HandyMod m=2,3 / LinearFinite radial maps, odd and even sizes, degrees 3-17) and heteronuclear "
-             "two-centre Becke-weighted grids; options boundary None/given, include_origin True/False/origin already in grid, remove_large_pts "
+             "two-centre Becke-weighted grids; options boundary None/given/given-and-shifted (constant shift D Y00/r_max), include_origin True/False/origin already in grid, remove_large_pts "
              "1e6/None/25/200, r_interval and ode tolerances; tolerance 1e-2 (documented) or 2e-3/3e-3 on meshes that resolve the density 10x better; "
              "linearity and homogeneity to 1e-6 (fixed initial guess), molecular = sum over atoms of w_A rho, robust = closed-form core + plain solver on "
              "the residual (1e-7), exact cancellation for rho = core model of H, C, N, O, Cl and two-centre pairs, split-2 exactness for basis members, "
